@@ -1,7 +1,6 @@
 from __future__ import annotations
 
 import functools
-import itertools
 import operator
 
 from packaging.specifiers import InvalidSpecifier as PkgInvalidSpecifier
@@ -18,7 +17,6 @@ from dep_logic.specifiers.generic import GenericSpecifier
 from dep_logic.specifiers.range import RangeSpecifier
 from dep_logic.specifiers.special import AnySpecifier, EmptySpecifier
 from dep_logic.specifiers.union import UnionSpecifier
-from dep_logic.utils import is_not_suffix, version_split
 
 
 def from_specifierset(spec: SpecifierSet) -> VersionSpecifier:
@@ -26,6 +24,18 @@ def from_specifierset(spec: SpecifierSet) -> VersionSpecifier:
 
     return functools.reduce(
         operator.and_, map(_from_pkg_specifier, spec), RangeSpecifier()
+    )
+
+
+def _prefix_bounds(version: Version, drop: int) -> tuple[Version, Version]:
+    """Bounds [X.Y.0, X.(Y+1).0) of the versions sharing the release prefix X.Y of
+    ``version`` (same epoch), after dropping the last ``drop`` release segments."""
+    release = list(version.release)[: len(version.release) - drop]
+    lower = [*release, 0]
+    upper = [*release[:-1], release[-1] + 1, 0]
+    return (
+        Version(f"{version.epoch}!{'.'.join(map(str, lower))}"),
+        Version(f"{version.epoch}!{'.'.join(map(str, upper))}"),
     )
 
 
@@ -48,21 +58,12 @@ def _from_pkg_specifier(spec: Specifier) -> VersionSpecifier:
             include_min = True
             include_max = True
         else:
-            version_parts = list(
-                itertools.takewhile(lambda x: x != "*", version_split(version))
-            )
-            min = Version(".".join([*version_parts, "0"]))
-            version_parts[-1] = str(int(version_parts[-1]) + 1)
-            max = Version(".".join([*version_parts, "0"]))
+            min, max = _prefix_bounds(Version(version[:-2]), 0)
             include_min = True
             include_max = False
     elif op == "~=":
         min = Version(version)
-        version_parts = list(
-            itertools.takewhile(is_not_suffix, version_split(version))
-        )[:-1]
-        version_parts[-1] = str(int(version_parts[-1]) + 1)
-        max = Version(".".join([*version_parts, "0"]))
+        max = _prefix_bounds(min, 1)[1]
         include_min = True
         include_max = False
     elif op == "!=":
@@ -76,12 +77,7 @@ def _from_pkg_specifier(spec: Specifier) -> VersionSpecifier:
                 simplified=str(spec),
             )
         else:
-            version_parts = list(
-                itertools.takewhile(lambda x: x != "*", version_split(version))
-            )
-            left = Version(".".join([*version_parts, "0"]))
-            version_parts[-1] = str(int(version_parts[-1]) + 1)
-            right = Version(".".join([*version_parts, "0"]))
+            left, right = _prefix_bounds(Version(version[:-2]), 0)
             return UnionSpecifier(
                 (
                     RangeSpecifier(max=left, include_max=False),
